@@ -32,7 +32,7 @@ func init() {
 		Level: "exploration",
 		Rule: "E1 bounded-exhaustive enumeration of the kind grammar T ::= scalar | string | [k]T | []T | map[K]T | *T | interface{} | struct{T,…} built with reflect to depth 3 (thorough 4) (every depth-1 type, then W types spread over each level as elements of the next): all 17 scalar kinds (bool, int8..64, int, uint8..64, uint, uintptr, float32/64, complex64/128) at every leaf position of depth-1 composites, a 7-type leaf subset plus 9 types of the previous level for binary structs; arrays of 0 and 2 elements; struct arity 1 and 2; map keys string/int32/uint; " +
 			"values per type from a shape alphabet (slices nil/empty/1/2 elements, maps nil/empty/1/2 entries, pointers nil/non-nil, interfaces nil/scalar/string/pointer/struct, strings \"\",\"a\",\"abc\" and 40 bytes; over leaf types also slices of 9, 70 and 1025 elements and maps of 9, 40 and 1000 entries; pointer values are deliberately REUSED in both elements of arrays and both fields of structs, so shared acyclic pointers occur). Oracle: the generator returns (value, size) and computes the size while building (headers 16/24/8/8/16, 8 for int/uint/uintptr; 64-bit platform asserted). size.Of on every value; Stat(v,d,m) for d in {0,1,3}, m in {0,1,10} and the AvgOf form: the number on the first line equals the expected size. " +
-			"Plus element structs {A [L]T; B S} (L 0..3, T not scalar, S of 1 / 8 / 16 bytes) inside slices, arrays, maps and behind a pointer. Plus WIDE structs (7..257 fields, the last six a string, a []byte, a pointer, an interface, a map and an array; alone, in slices of 1..3, a [2] array and a map). Plus 34 hand-written values (16 of them deep: linked lists of 999..50001 nodes and interface/pointer chains of 1000..10000 boxes) (among them maps whose struct / array / interface keys differ in structural size) of Go types reflect cannot build (unexported and embedded fields, named types, padding, interior pointers of another type into the object being walked - to its first field or element and further in), and a SEQUENCE of 13 values of distinct types that print alike (seven local types all called props.rec, two package-level types both called model.Rec; in pairs also equal in Size and Kind), measured in order by one goroutine, forward then backward: nothing may be carried from one type to a like-named one; and a SEQUENCE on shared objects in which out-of-domain calls (a chan, a func, an unsafe.Pointer behind pointers: Of and Stat panic, the caller recovers) come between measurements of in-domain values that reach the same pointers: a recovered panic must leave nothing behind. A case is one (value, function) pair; non-trivial when the type is composite.",
+			"Plus element structs {A [L]T; B S} (L 0..3, T not scalar, S of 1 / 8 / 16 bytes) inside slices, arrays, maps and behind a pointer. Plus WIDE structs (7..257 fields, the last six a string, a []byte, a pointer, an interface, a map and an array; alone, in slices of 1..3, a [2] array and a map). Plus 34 hand-written values (16 of them deep: linked lists of 999..50001 nodes and interface/pointer chains of 1000..10000 boxes) (among them maps whose struct / array / interface keys differ in structural size) of Go types reflect cannot build (unexported and embedded fields, named types, padding, interior pointers of another type into the object being walked - to its first field or element and further in), and a SEQUENCE of 13 values of distinct types that print alike (seven local types all called props.rec, two package-level types both called model.Rec; in pairs also equal in Size and Kind), measured in order by one goroutine, forward then backward: nothing may be carried from one type to a like-named one; and a SEQUENCE on shared objects in which out-of-domain calls (a chan, a func, an unsafe.Pointer behind pointers: Of and Stat panic, the caller recovers) come between measurements of in-domain values that reach the same pointers: a recovered panic must leave nothing behind. Plus structs of 7..257 fields, element structs with array fields of non-scalar elements, and LONG arrays and slices: 21 lengths 0..4096 (around 8, 16, 32, 64, 128, 256) of uint8 / int8 / bool / uint16 / int64 / string elements by value, behind a pointer, as slice elements, as a struct field by value and behind a pointer, as a map value and as the dynamic value of an interface. A case is one (value, function) pair; non-trivial when the type is composite.",
 		Assumptions: []string{
 			"64-bit platform (asserted at start)",
 			"types deeper than D, struct arity > 2 and cyclic values are not generated (cycles are excluded by the statement)",
@@ -378,6 +378,61 @@ func c20ArrayFields() c20Type {
 				m.SetMapIndex(reflect.ValueOf(int32(1)), mk())
 				t.vals = append(t.vals, c20Val{m, 8 + 4 + el, "map[int32]" + d})
 			}
+		}
+	}
+	return t
+}
+
+// c20LongSeqs: arrays and slices of 0..4096 scalar (and string) elements in every position reflect treats
+// differently - by value, behind a pointer (addressable), as a slice element, as a struct field by value
+// and behind a pointer, as a map value, as the dynamic value of an interface: a bulk path for byte
+// buffers, a length threshold, Bytes() / Slice() on addressable arrays.
+func c20LongSeqs() c20Type {
+	t := c20Type{t: reflect.TypeOf(struct{ LongSeq int8 }{}), composite: true}
+	type ev struct {
+		x    interface{}
+		size int
+	}
+	es := []ev{{uint8(0xa5), 1}, {int8(-3), 1}, {true, 1}, {uint16(0xbeef), 2}, {int64(-9), 8}, {"ab", 16 + 2}}
+	for _, L := range []int{0, 1, 7, 8, 15, 16, 31, 32, 33, 63, 64, 65, 100, 127, 128, 129, 255, 256, 257, 1000, 4096} {
+		for _, e := range es {
+			et := reflect.TypeOf(e.x)
+			at := reflect.ArrayOf(L, et)
+			mkArr := func() reflect.Value {
+				a := reflect.New(at).Elem()
+				for i := 0; i < L; i++ {
+					a.Index(i).Set(reflect.ValueOf(e.x))
+				}
+				return a
+			}
+			body := L * e.size
+			d := fmt.Sprintf("[%d]%v", L, et)
+			arr := mkArr()
+			t.vals = append(t.vals, c20Val{reflect.ValueOf(arr.Interface()), body, d + " by value"})
+			t.vals = append(t.vals, c20Val{arr.Addr(), 8 + body, "*" + d})
+			sl := reflect.MakeSlice(reflect.SliceOf(et), L, L)
+			reflect.Copy(sl, arr)
+			t.vals = append(t.vals, c20Val{sl, 24 + body, "[]" + et.String() + fmt.Sprintf(" of %d", L)})
+			ps := reflect.New(sl.Type())
+			ps.Elem().Set(sl)
+			t.vals = append(t.vals, c20Val{ps, 8 + 24 + body, "*[]" + et.String() + fmt.Sprintf(" of %d", L)})
+			s2 := reflect.MakeSlice(reflect.SliceOf(at), 2, 2)
+			s2.Index(0).Set(arr)
+			s2.Index(1).Set(arr)
+			t.vals = append(t.vals, c20Val{s2, 24 + 2*body, "[]" + d + " of 2"})
+			st := reflect.StructOf([]reflect.StructField{{Name: "A", Type: at}, {Name: "B", Type: reflect.TypeOf(int8(0))}})
+			sv := reflect.New(st)
+			sv.Elem().Field(0).Set(arr)
+			sv.Elem().Field(1).Set(reflect.ValueOf(int8(5)))
+			t.vals = append(t.vals, c20Val{reflect.ValueOf(sv.Elem().Interface()), body + 1, "struct{A " + d + "; B int8} by value"})
+			t.vals = append(t.vals, c20Val{sv, 8 + body + 1, "*struct{A " + d + "; B int8}"})
+			m := reflect.MakeMap(reflect.MapOf(reflect.TypeOf(int32(0)), at))
+			m.SetMapIndex(reflect.ValueOf(int32(1)), arr)
+			t.vals = append(t.vals, c20Val{m, 8 + 4 + body, "map[int32]" + d})
+			it := reflect.StructOf([]reflect.StructField{{Name: "X", Type: c20Iface}})
+			iv := reflect.New(it).Elem()
+			iv.Field(0).Set(arr)
+			t.vals = append(t.vals, c20Val{iv, 16 + body, "struct{X interface{}} holding " + d})
 		}
 	}
 	return t
@@ -865,7 +920,7 @@ func c20Run(c *mc.Ctx) {
 	c.Set("type_depth", D)
 	c.Set("types", len(types))
 	c.Set("types_per_depth", per)
-	types = append(types, c20Handwritten(), c20SameNamed(), c20IfaceSlots(), c20AfterPanic(), c20Wide(), c20ArrayFields())
+	types = append(types, c20Handwritten(), c20SameNamed(), c20IfaceSlots(), c20AfterPanic(), c20Wide(), c20ArrayFields(), c20LongSeqs())
 	nvals := 0
 	for _, t := range types {
 		nvals += len(t.vals)
@@ -933,7 +988,7 @@ func c20Judge(kind string, cs c20Case) (got, want string) {
 		return fmt.Sprintf("Of=%s%d", p, g), "Of=0"
 	}
 	types, _ := c20Types(cs.Depth, cs.Width)
-	types = append(types, c20Handwritten(), c20SameNamed(), c20IfaceSlots(), c20AfterPanic(), c20Wide(), c20ArrayFields())
+	types = append(types, c20Handwritten(), c20SameNamed(), c20IfaceSlots(), c20AfterPanic(), c20Wide(), c20ArrayFields(), c20LongSeqs())
 	if cs.Path[0] >= len(types) || cs.Path[1] >= len(types[cs.Path[0]].vals) {
 		return "case does not exist in this enumeration", ""
 	}
